@@ -289,7 +289,10 @@ def _shrink_task(args):
             return any(v["bucket"] == bucket for v in ctx.violations)
 
         # start from the recorded failing case: judge must reproduce it
+        from hypothesis.reporting import with_reporter
+
         try:
+          with with_reporter(lambda *a, **k: None):
             small = find(
                 part.strategy, cond,
                 settings=settings(
